@@ -19,8 +19,10 @@ func evalConst(e ast.Expr, env map[string]uint64) (uint64, bool) {
 	case *ast.BasicLit:
 		return litVal(n)
 	case *ast.Ident, *ast.SelectorExpr:
-		v, ok := env[selName(e)]
-		return v, ok
+		if v, ok := env[selName(e)]; ok {
+			return v, true
+		}
+		return litVal(e)
 	case *ast.BinaryExpr:
 		a, ok1 := evalConst(n.X, env)
 		b, ok2 := evalConst(n.Y, env)
@@ -37,10 +39,16 @@ func evalConst(e ast.Expr, env map[string]uint64) (uint64, bool) {
 	return 0, false
 }
 
-// makeByteSizes lists N of every `make([]byte, N)` in fn, in source order.
+// makeByteSizes lists N of every `make([]byte, N)` (or `[N]byte` buffer) in fn, in source order.
 func makeByteSizes(fn *ast.FuncDecl) []uint64 {
 	var out []uint64
 	ast.Inspect(fn, func(x ast.Node) bool {
+		if at, ok := x.(*ast.ArrayType); ok && at.Len != nil && selName(at.Elt) == "byte" {
+			if v, ok := litVal(at.Len); ok {
+				out = append(out, v)
+			}
+			return true
+		}
 		c, ok := x.(*ast.CallExpr)
 		if !ok || selName(c.Fun) != "make" || len(c.Args) != 2 {
 			return true
@@ -128,7 +136,7 @@ func c17Facts(fc *facts) {
 	if len(footerLens) == 1 {
 		fc.set("sstFooterLen", footerLens[0], true, "")
 	} else {
-		problem("loadFooter: expected one cur.Move(t.Size() - N), got %v", footerLens)
+		problemFor([]string{"sstFooterLen"}, "loadFooter: expected one cur.Move(t.Size() - N), got %v", footerLens)
 	}
 	// writeFooter: fields.MustWriteUint32(t.file, 1)
 	var versions []uint64
@@ -145,7 +153,7 @@ func c17Facts(fc *facts) {
 	if len(versions) == 1 {
 		fc.set("sstVersion", versions[0], true, "")
 	} else {
-		problem("writeFooter: expected one literal version, got %v", versions)
+		problemFor([]string{"sstVersion"}, "writeFooter: expected one literal version, got %v", versions)
 	}
 
 	// NewTable: bloom.NewFilter(32*size.KB, 5)
@@ -168,7 +176,7 @@ func c17Facts(fc *facts) {
 		return true
 	})
 	if !foundBloom {
-		problem("NewTable: bloom.NewFilter(<const>, <const>) not found")
+		problemFor([]string{"bloomBits", "bloomHashes"}, "NewTable: bloom.NewFilter(<const>, <const>) not found")
 	}
 
 	// WriteRun: math.Floor(float64(targetSize) * 1.5)
@@ -180,6 +188,28 @@ func c17Facts(fc *facts) {
 		}
 		return true
 	})
+	if len(floats) == 0 {
+		// the factor as a named float constant of the file
+		used := map[string]bool{}
+		ast.Inspect(findFuncOr(tw, "TableWriter", "WriteRun"), func(x ast.Node) bool {
+			if id, ok := x.(*ast.Ident); ok {
+				used[id.Name] = true
+			}
+			return true
+		})
+		ast.Inspect(tw, func(x ast.Node) bool {
+			if vs, ok := x.(*ast.ValueSpec); ok {
+				for i, id := range vs.Names {
+					if used[id.Name] && i < len(vs.Values) {
+						if bl, ok := vs.Values[i].(*ast.BasicLit); ok && bl.Kind == token.FLOAT {
+							floats = append(floats, bl.Value)
+						}
+					}
+				}
+			}
+			return true
+		})
+	}
 	if len(floats) == 1 && strings.Count(floats[0], ".") == 1 && !strings.ContainsAny(floats[0], "eExXpP_") {
 		parts := strings.Split(floats[0], ".")
 		num, ok1 := litVal(&ast.BasicLit{Kind: token.INT, Value: strings.TrimLeft(parts[0]+parts[1], "0") + ""})
@@ -193,16 +223,16 @@ func c17Facts(fc *facts) {
 		fc.set("sstMaxFactorNum", num, ok1, "look-ahead factor")
 		fc.set("sstMaxFactorDen", den, ok1, "look-ahead factor")
 	} else {
-		problem("WriteRun: expected one decimal float factor, got %v", floats)
+		problemFor([]string{"sstMaxFactorNum", "sstMaxFactorDen"}, "WriteRun: expected one decimal float factor, got %v", floats)
 	}
 
 	// --- dkv/bloom: word size
 	bl := parseFile("dkv/bloom/bloom.go")
 	ds := append(append(divisors(findFuncOr(bl, "Filter", "setBit")), divisors(findFuncOr(bl, "Filter", "getBit"))...), divisors(findFuncOr(bl, "", "NewFilter"))...)
-	if w, ok := allEqual(ds); ok && len(ds) == 5 {
+	if w, ok := allEqual(ds); ok && len(ds) >= 3 {
 		fc.set("bloomWordBits", w, true, "")
 	} else {
-		problem("bloom word size: divisors in setBit/getBit/NewFilter are %v", ds)
+		problemFor([]string{"bloomWordBits"}, "bloom word size: divisors in setBit/getBit/NewFilter are %v", ds)
 	}
 
 	// --- dkv/fields: widths and byte order
@@ -212,25 +242,25 @@ func c17Facts(fc *facts) {
 	if w, ok := allEqual(lenW); ok && len(lenW) == 3 {
 		fc.set("fieldLenWidth", w, true, "")
 	} else {
-		problem("fields: var-bytes length prefix widths %v", lenW)
+		problemFor([]string{"fieldLenWidth"}, "fields: var-bytes length prefix widths %v", lenW)
 	}
 	u64W := append(append(makeByteSizes(findFuncOr(fl, "", "writeUint64")), makeByteSizes(findFuncOr(fl, "", "ReadUint64"))...), copyNSizes(findFuncOr(fl, "", "SkipUint64"))...)
 	if w, ok := allEqual(u64W); ok && len(u64W) == 3 {
 		fc.set("fieldU64Width", w, true, "")
 	} else {
-		problem("fields: uint64 widths %v", u64W)
+		problemFor([]string{"fieldU64Width"}, "fields: uint64 widths %v", u64W)
 	}
 	u32W := append(makeByteSizes(findFuncOr(fl, "", "writeUint32")), makeByteSizes(findFuncOr(fl, "", "ReadUint32"))...)
 	if w, ok := allEqual(u32W); ok && len(u32W) == 2 {
 		fc.set("fieldU32Width", w, true, "")
 	} else {
-		problem("fields: uint32 widths %v", u32W)
+		problemFor([]string{"fieldU32Width"}, "fields: uint32 widths %v", u32W)
 	}
 	tW := append(makeByteSizes(findFuncOr(fl, "", "writeTombstone")), makeByteSizes(findFuncOr(fl, "", "ReadTombstone"))...)
 	if w, ok := allEqual(tW); ok && len(tW) == 2 {
 		fc.set("fieldTombWidth", w, true, "")
 	} else {
-		problem("fields: tombstone widths %v", tW)
+		problemFor([]string{"fieldTombWidth"}, "fields: tombstone widths %v", tW)
 	}
 	// tombstone marker: `b[0] = 1` in writeTombstone and `marker[0] == byte(1)` in ReadTombstone
 	wm := indexAssignLits(findFuncOr(fl, "", "writeTombstone"))
@@ -250,13 +280,18 @@ func c17Facts(fc *facts) {
 	if len(wm) == 1 && len(rm) == 1 && wm[0] == rm[0] {
 		fc.set("fieldTombMark", wm[0], true, "")
 	} else {
-		problem("fields: tombstone marker written %v, read %v", wm, rm)
+		problemFor([]string{"fieldTombMark"}, "fields: tombstone marker written %v, read %v", wm, rm)
 	}
 	// integer conversions that truncate: uint32(offset) in IndexOffset, uint32(...) around the FlushSize sum
 	bitsOf := map[string]uint64{"uint8": 8, "uint16": 16, "uint32": 32, "uint64": 64}
 	var offConv []uint64
-	ast.Inspect(findFuncOr(si, "SearchIndex", "IndexOffset"), func(x ast.Node) bool {
-		if c, ok := x.(*ast.CallExpr); ok && len(c.Args) == 1 && selName(c.Args[0]) == "offset" {
+	ioFn := findFuncOr(si, "SearchIndex", "IndexOffset")
+	offParam := "offset"
+	if ioFn.Type != nil && ioFn.Type.Params != nil && len(ioFn.Type.Params.List) == 1 && len(ioFn.Type.Params.List[0].Names) == 1 {
+		offParam = ioFn.Type.Params.List[0].Names[0].Name
+	}
+	ast.Inspect(ioFn, func(x ast.Node) bool {
+		if c, ok := x.(*ast.CallExpr); ok && len(c.Args) == 1 && selName(c.Args[0]) == offParam {
 			if b, ok := bitsOf[selName(c.Fun)]; ok {
 				offConv = append(offConv, b)
 			}
@@ -266,40 +301,71 @@ func c17Facts(fc *facts) {
 	if len(offConv) == 1 {
 		fc.set("sstOffsetBits", offConv[0], true, "")
 	} else {
-		problem("IndexOffset: expected one uintNN(offset) conversion, got %v", offConv)
+		problemFor([]string{"sstOffsetBits"}, "IndexOffset: expected one uintNN(<offset parameter>) conversion, got %v", offConv)
 	}
 	// FlushSize: return uint32(EntryOverheadSize + len(e.Key()) + len(e.Value()))
-	fsOK := false
-	if fn := findFuncOr(en, "", "FlushSize"); fn.Body != nil && len(fn.Body.List) == 1 {
-		if r, ok := fn.Body.List[0].(*ast.ReturnStmt); ok && len(r.Results) == 1 {
-			if c, ok := r.Results[0].(*ast.CallExpr); ok && len(c.Args) == 1 {
-				var terms []string
-				var flat func(e ast.Expr)
-				flat = func(e ast.Expr) {
-					if b, ok := e.(*ast.BinaryExpr); ok && b.Op == token.ADD {
-						flat(b.X)
-						flat(b.Y)
-						return
-					}
-					if cc, ok := e.(*ast.CallExpr); ok && selName(cc.Fun) == "len" && len(cc.Args) == 1 {
-						if inner, ok := cc.Args[0].(*ast.CallExpr); ok {
-							terms = append(terms, "len("+selName(inner.Fun)+"())")
-							return
-						}
-					}
-					terms = append(terms, selName(e))
-				}
-				flat(c.Args[0])
-				sort.Strings(terms)
-				if b, ok := bitsOf[selName(c.Fun)]; ok && strings.Join(terms, "+") == "EntryOverheadSize+len(e.Key())+len(e.Value())" {
-					fc.set("sstFlushSizeBits", b, true, "")
-					fsOK = true
+	//  (a) which terms are summed decides where WriteRun cuts: observed by the chunking ops, reported against
+	//      sstEntryOverhead; (b) the width of the conversion only matters beyond 4 GB: a hard fact, read from any
+	//      uintNN(...) conversion in the function whatever statement form it is in.
+	fsFn := findFuncOr(en, "", "FlushSize")
+	recv := "e"
+	if fsFn.Type != nil && fsFn.Type.Params != nil && len(fsFn.Type.Params.List) == 1 && len(fsFn.Type.Params.List[0].Names) == 1 {
+		recv = fsFn.Type.Params.List[0].Names[0].Name
+	}
+	var convBits []uint64
+	var sums [][]string
+	ast.Inspect(fsFn, func(x ast.Node) bool {
+		c, ok := x.(*ast.CallExpr)
+		if !ok || len(c.Args) != 1 {
+			return true
+		}
+		if b, ok := bitsOf[selName(c.Fun)]; ok {
+			convBits = append(convBits, b)
+		}
+		return true
+	})
+	var flat func(e ast.Expr, terms *[]string)
+	flat = func(e ast.Expr, terms *[]string) {
+		switch n := e.(type) {
+		case *ast.ParenExpr:
+			flat(n.X, terms)
+			return
+		case *ast.BinaryExpr:
+			if n.Op == token.ADD {
+				flat(n.X, terms)
+				flat(n.Y, terms)
+				return
+			}
+		case *ast.CallExpr:
+			if _, conv := bitsOf[selName(n.Fun)]; (conv || selName(n.Fun) == "int") && len(n.Args) == 1 {
+				flat(n.Args[0], terms)
+				return
+			}
+			if selName(n.Fun) == "len" && len(n.Args) == 1 {
+				if inner, ok := n.Args[0].(*ast.CallExpr); ok {
+					*terms = append(*terms, "len("+strings.TrimPrefix(selName(inner.Fun), recv+".")+"())")
+					return
 				}
 			}
 		}
+		*terms = append(*terms, selName(e))
 	}
-	if !fsOK {
-		problem("FlushSize is no longer uintNN(EntryOverheadSize + len(e.Key()) + len(e.Value()))")
+	ast.Inspect(fsFn, func(x ast.Node) bool {
+		if r, ok := x.(*ast.ReturnStmt); ok && len(r.Results) == 1 {
+			var terms []string
+			flat(r.Results[0], &terms)
+			sort.Strings(terms)
+			sums = append(sums, terms)
+		}
+		return true
+	})
+	if len(sums) != 1 || strings.Join(sums[0], "+") != "EntryOverheadSize+len(Key())+len(Value())" {
+		problemFor([]string{"sstEntryOverhead"}, "FlushSize no longer returns EntryOverheadSize + len(Key()) + len(Value()) as one sum (got %v)", sums)
+	}
+	if b, ok := allEqual(convBits); ok {
+		fc.set("sstFlushSizeBits", b, true, "")
+	} else {
+		problemFor([]string{"sstFlushSizeBits"}, "FlushSize: expected uintNN(...) conversions of one width, got %v", convBits)
 	}
 	// byte order: every binary.<Order> selector in fields.go and bloom.go
 	le, other := 0, 0
@@ -316,9 +382,7 @@ func c17Facts(fc *facts) {
 			return true
 		})
 	}
-	if le > 0 && other == 0 {
-		fc.set("fieldsLittleEndian", 1, true, "")
-	} else {
-		fc.set("fieldsLittleEndian", 0, le+other > 0, "binary byte-order selectors")
-	}
+	// a different or mixed byte order is not written down as 0 (that would only break `fields_little_endian`):
+	// it is a problem of this fact, and the byte-level lockstep then decides with concrete files
+	fc.set("fieldsLittleEndian", 1, le > 0 && other == 0, "binary.LittleEndian as the only byte order of fields.go/bloom.go")
 }
